@@ -15,6 +15,11 @@ SCENARIOS = {
                                  [('assign', 'p1', 2.0), ('write', 'p2', 5.0), ('read_err', 'p2', 'hw'), ('announce', 'p2', 5.0)]]),
     'three_threads': dict(workers=[[('assign', 'p1', 1.0), ('announce_err', 'p1', 'x')], [('announce_err', 'p1', 'x'), ('assign', 'p1', 1.0)],
                                    [('write', 'p1', 7.0), ('assign', 'p2', 1.0)]]),
+    'activate_meanwhile': dict(workers=[[('assign', 'p1', 1.0), ('assign', 'p1', 2.0), ('assign', 'p2', 3.0)]],
+                               requests={'c3': [('activate', None)], 'c2': [('deactivate', None)]}),
+    'ident_meanwhile': dict(workers=[[('assign', 'p1', 1.0), ('announce_err', 'p1', 'x'), ('assign', 'p1', 1.0)],
+                                     [('assign', 'p2', 5.0)]],
+                            requests={'c3': [('activate', 'm1'), ('ident', None)], 'c1': [('ident', None)]}),
     'omit_window': dict(workers=[[('assign', 'p1', 1.0), ('assign', 'p1', 1.0), ('tick', '', 1.0), ('assign', 'p1', 1.0)],
                                  [('announce_err', 'p1', 'e'), ('assign', 'p1', 1.0)]], omit=0.5),
 }
